@@ -260,6 +260,32 @@ def step (d : Drv) (line : String) : Drv × String :=
         let (s, st, oof) := s.process (parseBool doRx) (parseBool doTx)
         (s, if oof then "FUEL" else s!"stats {st.received} {st.processed} {st.sent} {st.frames}")
     | none => (d, "bad-op")
+  | ["mnow", t] =>
+    match t.toNat? with
+    | some t => ({ d with now := t }, "ok")
+    | none => (d, "bad-op")
+  | ["mcheck", i] =>
+    match i.toNat? with
+    | some i => onLayer d i fun s => (s.checkTimeoutsRx, "ok")
+    | none => (d, "bad-op")
+  | ["mprx", i, id, ext, hex] =>
+    match i.toNat?, id.toNat?, parseHex hex with
+    | some i, some id, some data =>
+      onLayer d i fun s =>
+        let (s, imm, fr) := s.processRx { id := id, ext := parseBool ext, data := data }
+        (s, s!"imm={b01 imm} fr={b01 fr}")
+    | _, _, _ => (d, "bad-op")
+  | ["mupd", i] =>
+    match i.toNat? with
+    | some i => onLayer d i fun s => ({ s with rl := s.rl.update s.cfg.rlWindowNs s.now }, "ok")
+    | none => (d, "bad-op")
+  | ["mptx", i] =>
+    match i.toNat? with
+    | some i =>
+      onLayer d i fun s =>
+        let (s, out, imm) := s.processTx
+        (s, s!"msg={match out with | some m => showMsg m | none => "None"} imm={b01 imm}")
+    | none => (d, "bad-op")
   | ["tick", dt] =>
     match dt.toNat? with
     | some dt => ({ d with now := d.now + dt }, "ok")
